@@ -52,6 +52,41 @@ def reference(c, d, ap, ns):
     return ok, args
 
 
+def run_skipped(seed, budget, failures, hist, distinct):
+    """fields that deserialization skips (`skip`, `skip(deserialization=True)`), with and without a class aliaser: their key is not a property of the class -
+    unexpected, or ignored under additional_properties - and the field keeps its default"""
+    from apischema import deserialize, ValidationError
+    r = random.Random(seed * 71 + 9); n = 0
+    src = ["from dataclasses import dataclass, field", "from typing import *", "from apischema import alias", "from apischema.metadata import skip", ""]
+    specs = []
+    for i in range(30 * budget):
+        ca = r.choice([None, "lambda s: s.upper()", "lambda s: 'p_' + s"]); md = r.choice(["skip", "skip(deserialization=True)"])
+        L = ([f"@alias({ca})"] if ca else []) + ["@dataclass", f"class SKD{i}:", "    a: int", "    b: str = 'dv'", f"    sk: int = field(default=5, metadata={md})", ""]
+        src += L; specs.append((i, ca, L))
+    mod = build_module(src, f"c01skip_{seed}"); ns = dict(vars(mod))
+    for i, ca, L in specs:
+        cls = ns[f"SKD{i}"]; al = eval(ca) if ca else (lambda x: x)
+        for _ in range(6):
+            d = {al("a"): r.choice([1, 7, "x"])}
+            if r.random() < 0.5: d[al("b")] = r.choice(["s", 3])
+            has_sk = r.random() < 0.6
+            if has_sk: d[r.choice([al("sk"), "sk"])] = r.choice([9, "x"])
+            ap = r.random() < 0.3
+            want_ok = type(d[al("a")]) is int and (al("b") not in d or type(d[al("b")]) is str) and (ap or not has_sk)
+            n += 1; hist["skipped-field:" + ("class-aliaser" if ca else "plain")] += 1
+            distinct.add(case_hash("skipped", L, repr(d), ap))
+            why, info = [], {}
+            try: v = deserialize(cls, dict(d), additional_properties=ap); got_ok = True
+            except ValidationError as e: got_ok = False; info["errors"] = e.errors[:4]
+            except Exception as e: got_ok = None; why.append("crash:" + type(e).__name__)
+            if got_ok is not None and got_ok != want_ok: why.append("accepted-but-not-conforming" if got_ok else "conforming-but-rejected")
+            elif got_ok and v != cls(d[al("a")], d.get(al("b"), "dv"), 5): why.append("value-differs-from-the-attribution-of-the-keys"); info["got"] = repr(v)
+            if why:
+                failures.append({"kind": "P", "part": "aggregate-oracle", "features": ["skipped-field"], "src": L, "py": f"SKD{i}", "datum": repr(d), "additional_properties": ap,
+                                 "why": why, "info": info, "k_ok": None})
+    return n
+
+
 def run_part(seed, budget):
     from apischema import deserialize, ValidationError
     r = random.Random(seed * 977 + 5)
@@ -93,4 +128,5 @@ def run_part(seed, budget):
             if why:
                 failures.append({"kind": "P", "part": "aggregate-oracle", "features": ["aggregate"], "src": c["src"], "py": f"AG{c['i']}", "datum": repr(d), "additional_properties": ap,
                                  "why": why, "info": info, "k_ok": None})
+    n += run_skipped(seed, budget, failures, hist, distinct)
     return failures, n, distinct, hist
